@@ -100,6 +100,7 @@ type Lemma struct {
 	Props   []string
 	Vars    []LemmaVar
 	Steps   []*LemmaStep
+	Inline  []string
 	Pkg     string
 	Depth   int
 	File    string
@@ -576,6 +577,9 @@ func (db *ContractDB) loadContractFile(path, pkg string) error {
 			for _, n := range splitNames(rest) {
 				if curF != nil {
 					curF.Inline[n] = true
+				}
+				if curL != nil {
+					curL.Inline = append(curL.Inline, n)
 				}
 			}
 		case "opaque":
